@@ -107,6 +107,19 @@ def c20_docs(draw):
     doc["_discovery_values"] = {a: (0 if tight else draw(st.sampled_from([0, 0, 1, 2])))
                                 for a in doc["host_configurations"]}
     doc.pop("step_limit", None)
+    hc = doc["host_configurations"]
+    plain = [a for a in hc if a not in doc["sensitive_hosts"]]
+    if plain and draw(st.integers(0, 5)) == 0:
+        # a sensitive and an ordinary host with one and the same configuration (no value of their own), written
+        # once in the file and referred to through a YAML alias
+        s_ = draw(st.sampled_from(sorted(doc["sensitive_hosts"])))
+        t_ = draw(st.sampled_from(plain))
+        cfg = {k: (list(v) if isinstance(v, list) else v) for k, v in hc[s_].items() if k not in ("value", "firewall")}
+        hc[s_] = dict(cfg)
+        hc[t_] = dict(cfg)
+        doc["_alias"] = True
+        if draw(st.booleans()):
+            doc["host_configurations"] = {a: hc[a] for a in sorted(hc, key=lambda a: (a != s_, a))}   # the sensitive one first
     return doc
 
 
@@ -298,6 +311,9 @@ def run_source(source, rep, record=True):
             return failed
         env = h.env
         bound = float(env.get_score_upper_bound())
+        # rewards are float32 arithmetic on float32 state entries: stated tolerance 1e-5 x magnitude (as C05)
+        scale = max([1.0, abs(bound)] + [abs(float(hh["value"])) for hh in spec.hosts.values()])
+        tol = 1e-6 if scale < 1e5 else 1e-5 * scale
         hops = int(env.get_minimum_hops())
         res = search(spec, h.acts) if len(spec.addrs) <= 7 else None
         witnesses = []
@@ -333,7 +349,7 @@ def run_source(source, rep, record=True):
                 ptotal, pgoal, _ = replay(hp, seq)
                 if record:
                     rep.count("witness-replayed-parameterised")
-                if pgoal and ptotal > bound + 1e-6:
+                if pgoal and ptotal > bound + tol:
                     raise Failure("C20:bound-parameterised", f"goal-reaching episode through the parameterised action space earns {ptotal} > "
                                   f"advertised upper bound {bound} (hops {hops}); episode {[repr(a) for a in seq]}")
             total, goal, ncomp = replay(h, seq)
@@ -343,7 +359,7 @@ def run_source(source, rep, record=True):
                 continue
             if record:
                 rep.count("witness-replayed:" + kind)
-            if total > bound + 1e-6:
+            if total > bound + tol:
                 raise Failure("C20:bound", f"goal-reaching episode earns {total} > advertised upper bound {bound} "
                               f"(hops {hops}); episode {[repr(a) for a in seq]}; topology {spec.topology}, sensitive {list(spec.sensitive)}")
             if hops > ncomp:
@@ -360,7 +376,7 @@ def run_source(source, rep, record=True):
                 if record:
                     rep.count("real-value-iteration")
                     rep.extra["max_real_states"] = max(rep.extra.get("max_real_states", 0), nst)
-                if goal and total > bound + 1e-6:
+                if goal and total > bound + tol:
                     raise Failure("C20:bound-real", f"goal-reaching episode of the real environment earns {total} > advertised upper bound {bound} "
                                   f"(hops {hops}); flat action indices {seq}; actions {[str(h.real_actions[i]) for i in seq][:12]}")
         if steiner_branching(spec):
